@@ -7,6 +7,7 @@ package main
 
 import (
 	"go/token"
+	"go/types"
 	"strings"
 
 	"golang.org/x/tools/go/ssa"
@@ -15,10 +16,45 @@ import (
 // textTemplate returns the canonical format and operands of v; ok is false when a part of v is
 // built in a way the normaliser does not know (then nothing may be concluded).
 func textTemplate(v ssa.Value, depth int) (string, []ssa.Value, bool) {
-	if depth > 12 {
+	return textTemplateB(v, depth, nil, nil)
+}
+
+// textTemplateB: bind maps the parameters of module helpers that were entered on the way
+// (`appendPoint(buf, val, ts)`) to the caller's arguments, so that the operands are values of the
+// function the template was asked for.
+//
+// bases (optional) collects the buffers the text is written into: the allocation at the bottom of
+// an append chain (make, []byte(s), or an operand that is appended to). A rule that hands the text
+// to somebody else can then ask whether that buffer is this evaluation's own.
+func textTemplateB(v ssa.Value, depth int, bind map[ssa.Value]ssa.Value, bases *[]ssa.Value) (string, []ssa.Value, bool) {
+	if depth > 24 {
 		return "", nil, false
 	}
+	for i := 0; i < 8; i++ {
+		w, ok := bind[v]
+		if !ok {
+			break
+		}
+		v = w
+	}
 	esc := func(s string) string { return strings.ReplaceAll(s, "%", "%%") }
+	num := func(a ssa.Value) ssa.Value {
+		for i := 0; i < 16; i++ {
+			if w, ok := bind[a]; ok {
+				a = w
+				continue
+			}
+			cv, ok := a.(*ssa.Convert)
+			if !ok {
+				return a
+			}
+			a = cv.X
+		}
+		return a
+	}
+	cat := func(f1 string, o1 []ssa.Value, f2 string, o2 []ssa.Value) (string, []ssa.Value, bool) {
+		return f1 + f2, append(append([]ssa.Value(nil), o1...), o2...), true
+	}
 	switch x := v.(type) {
 	case *ssa.Const:
 		if s, ok := constString(x); ok {
@@ -26,37 +62,82 @@ func textTemplate(v ssa.Value, depth int) (string, []ssa.Value, bool) {
 		}
 	case *ssa.Convert:
 		// []byte(string) / string([]byte)
-		return textTemplate(x.X, depth+1)
+		if bases != nil && x.Type().Underlying().String() == "[]byte" {
+			*bases = append(*bases, x)
+		}
+		return textTemplateB(x.X, depth+1, bind, nil)
 	case *ssa.ChangeType:
-		return textTemplate(x.X, depth+1)
+		return textTemplateB(x.X, depth+1, bind, nil)
+	case *ssa.MakeSlice:
+		// make([]byte, 0, n): the empty text
+		if k, ok := constInt(x.Len); ok && k == 0 {
+			if bases != nil {
+				*bases = append(*bases, x)
+			}
+			return "", nil, true
+		}
+		return "", nil, false
 	case *ssa.BinOp:
 		if x.Op == token.ADD {
-			f1, o1, ok1 := textTemplate(x.X, depth+1)
-			f2, o2, ok2 := textTemplate(x.Y, depth+1)
+			f1, o1, ok1 := textTemplateB(x.X, depth+1, bind, nil)
+			f2, o2, ok2 := textTemplateB(x.Y, depth+1, bind, nil)
 			if ok1 && ok2 {
-				return f1 + f2, append(append([]ssa.Value(nil), o1...), o2...), true
+				return cat(f1, o1, f2, o2)
 			}
 			return "", nil, false
 		}
 	case *ssa.Call:
-		num := func(a ssa.Value) ssa.Value {
-			for {
-				cv, ok := a.(*ssa.Convert)
-				if !ok {
-					return a
-				}
-				a = cv.X
+		if b, ok := x.Call.Value.(*ssa.Builtin); ok {
+			if b.Name() != "append" || len(x.Call.Args) != 2 {
+				return "", nil, false
 			}
+			// append(buf, tail...): the text of buf followed by the text of tail; append(buf, 'c', …): constant bytes
+			f1, o1, ok1 := textTemplateB(x.Call.Args[0], depth+1, bind, bases)
+			if !ok1 {
+				return "", nil, false
+			}
+			if elems, ok := variadicElems(x.Call.Args[1]); ok {
+				lit := ""
+				for _, e := range elems {
+					k, ok := constInt(e)
+					if !ok || k < 0 || k > 127 {
+						return "", nil, false
+					}
+					lit += string(rune(k))
+				}
+				return cat(f1, o1, esc(lit), nil)
+			}
+			if k, ok := x.Call.Args[1].(*ssa.Const); ok && k.IsNil() {
+				return f1, o1, true
+			}
+			f2, o2, ok2 := textTemplateB(x.Call.Args[1], depth+1, bind, nil)
+			if !ok2 {
+				return "", nil, false
+			}
+			return cat(f1, o1, f2, o2)
 		}
+		floatVerb := func(args []ssa.Value) (string, bool) {
+			fc, ok1 := constInt(args[1])
+			prec, ok2 := constInt(args[2])
+			bits, ok3 := constInt(args[3])
+			if ok1 && ok2 && ok3 && fc == 'f' && bits == 64 {
+				if prec == 6 {
+					return "%f", true
+				}
+				return "%." + itoa(int(prec)) + "f", true
+			}
+			return "", false
+		}
+		args := x.Call.Args
 		switch calleeName(x.Common()) {
 		case "fmt.Sprintf":
-			f, ok := constString(x.Call.Args[0])
+			f, ok := constString(args[0])
 			if !ok {
 				return "", nil, false
 			}
 			var ops []ssa.Value
-			if len(x.Call.Args) > 1 {
-				elems, ok := variadicElems(x.Call.Args[1])
+			if len(args) > 1 {
+				elems, ok := variadicElems(args[1])
 				if !ok {
 					return "", nil, false
 				}
@@ -64,34 +145,83 @@ func textTemplate(v ssa.Value, depth int) (string, []ssa.Value, bool) {
 					if mi, ok := e.(*ssa.MakeInterface); ok {
 						e = mi.X
 					}
+					if w, ok := bind[e]; ok {
+						e = w
+					}
 					ops = append(ops, e)
 				}
 			}
 			return f, ops, true
 		case "strconv.FormatFloat":
-			fc, ok1 := constInt(x.Call.Args[1])
-			prec, ok2 := constInt(x.Call.Args[2])
-			bits, ok3 := constInt(x.Call.Args[3])
-			if ok1 && ok2 && ok3 && fc == 'f' && bits == 64 {
-				if prec == 6 {
-					return "%f", []ssa.Value{num(x.Call.Args[0])}, true
-				}
-				return "%." + itoa(int(prec)) + "f", []ssa.Value{num(x.Call.Args[0])}, true
+			if verb, ok := floatVerb(args); ok {
+				return verb, []ssa.Value{num(args[0])}, true
 			}
 			return "", nil, false
 		case "strconv.FormatUint", "strconv.FormatInt":
-			if base, ok := constInt(x.Call.Args[1]); ok && base == 10 {
-				return "%d", []ssa.Value{num(x.Call.Args[0])}, true
+			if base, ok := constInt(args[1]); ok && base == 10 {
+				return "%d", []ssa.Value{num(args[0])}, true
 			}
 			return "", nil, false
 		case "strconv.Itoa":
-			return "%d", []ssa.Value{num(x.Call.Args[0])}, true
+			return "%d", []ssa.Value{num(args[0])}, true
+		case "strconv.AppendFloat":
+			// AppendFloat(buf, v, 'f', 6, 64) = buf followed by FormatFloat(v, 'f', 6, 64)
+			f1, o1, ok1 := textTemplateB(args[0], depth+1, bind, bases)
+			verb, ok2 := floatVerb(args[1:])
+			if ok1 && ok2 {
+				return cat(f1, o1, verb, []ssa.Value{num(args[1])})
+			}
+			return "", nil, false
+		case "strconv.AppendUint", "strconv.AppendInt":
+			f1, o1, ok1 := textTemplateB(args[0], depth+1, bind, bases)
+			if base, ok := constInt(args[2]); ok1 && ok && base == 10 {
+				return cat(f1, o1, "%d", []ssa.Value{num(args[1])})
+			}
+			return "", nil, false
+		}
+		// a module helper that builds (part of) the text: its single returned value, with its
+		// parameters standing for the arguments of this call
+		if callee := x.Call.StaticCallee(); callee != nil && ModuleFunc(callee) && callee.Blocks != nil && !x.Call.IsInvoke() && len(callee.Params) == len(args) && callee.Signature.Results().Len() == 1 {
+			var ret *ssa.Return
+			n := 0
+			for _, b := range callee.Blocks {
+				if r, ok := b.Instrs[len(b.Instrs)-1].(*ssa.Return); ok {
+					ret = r
+					n++
+				}
+			}
+			if n == 1 && isTextType(callee.Signature.Results().At(0).Type()) {
+				nb := map[ssa.Value]ssa.Value{}
+				for k, w := range bind {
+					nb[k] = w
+				}
+				for i, p := range callee.Params {
+					a := args[i]
+					if w, ok := bind[a]; ok {
+						a = w
+					}
+					nb[p] = a
+				}
+				if f, ops, ok := textTemplateB(ret.Results[0], depth+1, nb, bases); ok {
+					return f, ops, true
+				}
+			}
 		}
 	}
 	// any other string / []byte value is an operand
-	switch v.Type().Underlying().String() {
-	case "string", "[]byte":
+	if isTextType(v.Type()) {
+		if bases != nil {
+			*bases = append(*bases, v)
+		}
 		return "%s", []ssa.Value{v}, true
 	}
 	return "", nil, false
+}
+
+func isTextType(t types.Type) bool {
+	switch t.Underlying().String() {
+	case "string", "[]byte":
+		return true
+	}
+	return false
 }
